@@ -1055,10 +1055,18 @@ where
         if matches!(element_name, JSXElementName::JSXMemberExpr(..)) {
             should_transformed_to_slots
         } else {
+            // the tag of `<ns:name>` is `ns:name`: that is what a pattern has to match
+            let qualified_name = match element_name {
+                JSXElementName::JSXNamespacedName(JSXNamespacedName { ns, name, .. }) => {
+                    Some(format!("{}:{}", ns.sym, name.sym))
+                }
+                _ => None,
+            };
+            let tag = qualified_name.as_deref().unwrap_or(name);
             self.options
                 .custom_element_patterns
                 .iter()
-                .all(|pattern| !pattern.is_match(name))
+                .all(|pattern| !pattern.is_match(tag))
                 && should_transformed_to_slots
                 && !(name.as_bytes()[0].is_ascii_lowercase()
                     && (css_dataset::tags::STANDARD_HTML_TAGS.contains(name)
